@@ -177,7 +177,7 @@ func (e *Engine) stepSafe(st *State) (forks []*State) {
 			for _, alt := range fq.alts {
 				n := st.clone()
 				n.assume(alt)
-				if e.Feas.Feasible(n.pc) {
+				if e.Mode == ModeSpec || e.Feas.Feasible(n.pc) {
 					forks = append(forks, n)
 				}
 			}
@@ -269,7 +269,20 @@ func (e *Engine) load(st *State, l *Loc, t types.Type) Val {
 		n := nLeaves(t)
 		return st.normVal(c[l.Off : l.Off+n])
 	}
-	return st.normVal(st.heap.read(l, t))
+	v := st.normVal(st.heap.read(l, t))
+	for i, lf := range leavesOf(t) {
+		if v[i].Op == "select" && !v[i].hasBV {
+			for _, f := range leafAssume(v[i], lf) {
+				if e.Mode == ModeSpec {
+					e.addFact(f)
+					st.learn(st.norm(f))
+				} else {
+					st.assume(f)
+				}
+			}
+		}
+	}
+	return v
 }
 
 func (e *Engine) store(st *State, l *Loc, t types.Type, v Val) {
@@ -815,6 +828,10 @@ func (e *Engine) arith(st *State, where token.Pos, t *Term, b *types.Basic) *Ter
 	}
 	if e.TopFC != nil && e.TopFC.Opts["wraps"] != "" {
 		return wrapTo(t, b)
+	}
+	if e.TopFC != nil && e.TopFC.Opts["math-ints"] != "" {
+		e.AssumedDep["machine arithmetic treated as mathematical in "+shortFn(e.TopFn)]++
+		return t
 	}
 	e.oblige(st, shortFn(e.TopFn)+".overflow", "overflow", where, in)
 	return t
